@@ -669,9 +669,12 @@ pub fn drive_main(args: &[String]) -> i32 {
         "{} {}: {} runs in {:.1}s ({:.0}/s), {} distinct non-trivial decision traces, {} violations, {} known findings",
         prop, tier, total.evaluated, wall, runs_per_s, triggers.len(), nviol, nknown
     );
-    if harness_error {
-        eprintln!("HARNESS ERROR: worker infrastructure failure");
+    if harness_error && exit == 0 {
+        eprintln!("HARNESS ERROR: worker infrastructure failure or nondeterminism, and no violation to report");
         return 2;
+    }
+    if harness_error {
+        eprintln!("NOTE: besides the violation(s) above the run saw a harness-level problem (see HARNESS ERROR lines)");
     }
     exit
 }
